@@ -40,6 +40,8 @@ const (
 	REQUEST_BODY_SIZE_LIMIT = 2 * 1024 * 1024
 
 	ACTIVE_KEYSET = "active_keyset_key"
+	// prefix of the cache keys of the responses for a keyset by id
+	KEYSET_BY_ID_PREFIX = "keyset_id_"
 	// 1 day
 	KEYSET_TTL = 60 * 60 * 24
 )
@@ -307,7 +309,11 @@ func (ms *MintServer) getKeysetById(rw http.ResponseWriter, req *http.Request) {
 	vars := mux.Vars(req)
 	id := vars["id"]
 
-	keysetResponse, found := ms.cache.Get(id)
+	// the cache is shared with the other endpoints. Use a key of its own kind so
+	// that an id in the request equal to the key of another entry does not get
+	// that entry as response.
+	cacheKey := KEYSET_BY_ID_PREFIX + id
+	keysetResponse, found := ms.cache.Get(cacheKey)
 	if found {
 		ms.logRequest(req, http.StatusOK, "returning keyset with id: %v from cache", id)
 		rw.Write(keysetResponse)
@@ -326,7 +332,7 @@ func (ms *MintServer) getKeysetById(rw http.ResponseWriter, req *http.Request) {
 		return
 	}
 
-	ms.cache.Set(id, jsonRes, time.Second*KEYSET_TTL)
+	ms.cache.Set(cacheKey, jsonRes, time.Second*KEYSET_TTL)
 
 	ms.logRequest(req, http.StatusOK, "returning keyset with id: %v", id)
 	rw.Write(jsonRes)
